@@ -384,6 +384,46 @@ case("fixed-value", "adv/fixed", ["Default"])
 case("fixed-value-k2", "adv/fixed", ["NumberTwo", "Default"])
 
 
+# ---- regeneration over moq's own output (D23, D30) ----
+FILES["adv/regen2/f1.go"] = """package regen2
+
+import "example.com/m/dep/core/v1"
+
+type P1 interface{ A(v1 int, x v1.T) }
+"""
+FILES["adv/regen2/f2.go"] = """package regen2
+
+import "example.com/m/dep/apps/v1"
+
+type P2 interface{ B(y v1.T) }
+
+type R interface {
+	P1
+	P2
+}
+"""
+case("regen2-R", "adv/regen2", ["R"])
+case("regen2-R-stub", "adv/regen2", ["R"], stub=True, resets=True)
+FILES["adv/regen3/b.go"] = """package regen3
+
+import yaml "example.com/m/dep/other"
+
+type B interface{ Other(o yaml.T) }
+"""
+FILES["adv/regen3/c.go"] = """package regen3
+
+import "example.com/m/dep/yaml.v3"
+
+type C interface{ Load(y yaml.T) }
+
+type All interface {
+	B
+	C
+}
+"""
+case("regen3-All", "adv/regen3", ["All"])
+
+
 def write_all(root, write):
     for rel, (name, decls) in EXTRA_DEPS.items():
         write(os.path.join(root, rel, "x.go"), "package %s\n\n%s" % (name, decls))
